@@ -134,13 +134,18 @@ example :
 /-! ## The flush reproduces the buffer on the terminal, exactly once -/
 
 /-- The statement of `flush_spec` for a buffer `rb`: the flush completes and, whatever the terminal showed before
-    (`t`: any grid, cursor, pen, cursor oracle, print path), every terminal cell afterwards satisfies `cellOK` against
+    (`t`: any grid, any cursor position *including the pending-wrap state* `col = cols`, pen, cursor oracle, print path),
+    provided the terminal is at least as wide as the buffer — the one assumption about the right edge: `GridTerm` has the
+    VT behaviour there (printing into the last column leaves pending wrap, the next character would wrap, `erasech` in
+    that state acts on the last column, cursor movements clamp and end it), and the theorem shows the flush never relies
+    on it: every line starts with a goto and nothing is printed past the buffer's width —
+    every terminal cell afterwards satisfies `cellOK` against
     the content of the buffer: skipped cells and cells outside the buffer are untouched (glyph, pen and write count),
     erase cells are blank, char cells show their code point, line cells a box-drawing glyph with the arms of the mask,
     text cells the grapheme of their column (a half of a cut double-width character: blank), each with a rendition
     equivalent to its pen and written exactly once. -/
 def FlushSpec (rb : RB) : Prop :=
-  ∀ t : GridTerm,
+  ∀ t : GridTerm, rb.cols ≤ t.cols →
     (flushToTerm rb).out = .ok ∧
     ∀ l c, cellOK (want rb l c) (t.cells l c) ((t.run (flushToTerm rb).reqs).cells l c) = true
 
@@ -151,7 +156,7 @@ def FlushSpec (rb : RB) : Prop :=
     including the middle of a double-width character (its visible half is blanked).  Every prior grid, cursor
     position, terminal pen, oracle for the cursor after `erasech(…, MAYBE)` and print path. -/
 theorem flush_spec (rb : RB) (hwf : FlushWF rb) : FlushSpec rb :=
-  fun t => flush_spec_of_text hwf (fun _ _ h1 h2 h3 hr hs => text_run ⟨h1, h2⟩ h3 hr hs) t
+  fun t hcw => flush_spec_of_text hwf (fun _ _ h1 h2 h3 hr hs => text_run ⟨h1, h2⟩ h3 hr hs) t hcw
 
 /-- **flush_spec_reachable**: `FlushSpec` for the buffer any drawing program (the operations of C03, engine `rb`)
     leaves behind on a fresh buffer, given that what it drew is presentable (`ContentOK`: line styles 1 … 3 so that masks
@@ -190,12 +195,13 @@ example : FlushSpec (RB.run (RB.new 2 8 7 7)
       | exact (by unfold CharOK; decide +kernel : CharOK 0x51))
 
 /-- Everything to the right of a text lands in its own column: after the requests of a TEXT run the terminal cursor
-    has advanced by exactly the run's columns, whatever part of the text the run shows. -/
+    has advanced by exactly the run's columns, whatever part of the text the run shows (when the run ends at the
+    terminal's last column the cursor is on that column, pending wrap or not, and the line is finished). -/
 theorem text_run_advances (rb : RB) (line col : Int) (hl : 0 ≤ line ∧ line < rb.lines) (h0 : 0 ≤ col)
-    (hr : RunAt rb line col) (hs : (rb.cell line col).state = .text) (t : GridTerm)
-    (ht : t.line = line ∧ t.col = col) :
+    (hr : RunAt rb line col) (hs : (rb.cell line col).state = .text) (t : GridTerm) (hcw : rb.cols ≤ t.cols)
+    (ht : t.line = line ∧ t.col = col) (hroom : col + (rb.cell line col).cols < t.cols) :
     (t.run (textReqs (rb.cell line col))).col = col + (rb.cell line col).cols :=
-  (text_run hl h0 hr hs t ht).2
+  (text_run hl h0 hr hs t hcw ht).2 hroom
 
 /-! ### Non-vacuity: a buffer with a text cut inside a double-width character on both sides -/
 
@@ -229,15 +235,16 @@ example : FlushSpec (hlineAt (eraseAt (eraseAt (charAt (RB.new 2 6 0 0) 0 2 0x41
 
 /-- **text_columns**: for every text the width counter accepts (`decode s = some cs`: its characters, each with the
     library's `tickit_utf8_wcwidth` as width), the library's own counting (`tickit_utf8_count` without limit) finds
-    `Σ width` columns, and the terminal advances by exactly as many when the text is printed (zero-width characters
-    do not move it, double-width ones move it by two).  The columns a *run* of the text advances the terminal by are
+    `Σ width` columns, and the terminal advances by exactly as many when the text is printed with room for it on the
+    line (zero-width characters do not move it, double-width ones move it by two; `col = cols` afterwards is the
+    pending-wrap state).  The columns a *run* of the text advances the terminal by are
     the run's columns: `text_run_advances`. -/
 theorem text_columns (s : List UInt8) (cs : List Ch) (hdec : decode s = some cs) (t : GridTerm) :
     (Utf8.ncountmore s none {} (some ⟨-1, -1, -1, -1⟩)).pos.columns = chCols cs ∧
     (∀ c ∈ cs, c.width = Utf8.wcwidth c.cp) ∧
-    (t.printBytes (s.take (bytesLen cs))).col = t.col + chCols cs := by
+    (t.col + chCols cs ≤ t.cols → (t.printBytes (s.take (bytesLen cs))).col = t.col + chCols cs) := by
   have hp := decodeFrom_props s cs _ 0 hdec
-  refine ⟨?_, fun c hc => (hp c hc).2.1, ?_⟩
+  refine ⟨?_, fun c hc => (hp c hc).2.1, fun hroom => ?_⟩
   · have := ncountmore_spec s cs hdec ⟨-1, -1, -1, -1⟩ rfl rfl 0 (by omega)
       (by unfold Within; exact ⟨Or.inl rfl, Or.inl rfl⟩)
     simp only [List.take_zero, advance, List.drop_zero, prefixLen_nolimit, List.take_length] at this
@@ -245,15 +252,16 @@ theorem text_columns (s : List UInt8) (cs : List Ch) (hdec : decode s = some cs)
     simp
   · have hb := decodeFrom_bytes s cs.length cs _ 0 hdec
     rw [List.take_length, List.drop_zero] at hb
-    rw [hb, printBytes_chars cs hp, putChs_col]
+    rw [hb, printBytes_chars cs hp, putChs_col cs (fun c hc => by have := (hp c hc).2.2; omega) t hroom]
 
 /-- The same for the number `put_string` goes by (`tickit_utf8_ncount` over the whole string, the columns the text
     occupies in the buffer and the virtual cursor advances by — C03 `cursor_advances`): it is the sum of the widths, and
     the terminal advances by exactly that number. -/
-theorem text_columns_put_string (s : List UInt8) (n : Int) (h : Utf8.stringColumns s = some n) (t : GridTerm) :
+theorem text_columns_put_string (s : List UInt8) (n : Int) (h : Utf8.stringColumns s = some n) (t : GridTerm)
+    (hroom : t.col + n ≤ t.cols) :
     ∃ cs, decode s = some cs ∧ chCols cs = n ∧ (t.printBytes (s.take (bytesLen cs))).col = t.col + n := by
   obtain ⟨cs, hcs, hn⟩ := decode_of_stringColumns s n h
-  exact ⟨cs, hcs, hn, by rw [(text_columns s cs hcs t).2.2, hn]⟩
+  exact ⟨cs, hcs, hn, by rw [(text_columns s cs hcs t).2.2 (by rw [hn]; exact hroom), hn]⟩
 
 /-- Non-vacuity: `a`, U+0301 (zero-width), U+FF21 (double-width), `b` occupy 1 + 0 + 2 + 1 = 4 columns. -/
 example : (decode [0x61, 0xcc, 0x81, 0xef, 0xbc, 0xa1, 0x62]).map (fun cs => (cs.length, chCols cs, bytesLen cs)) =
@@ -270,14 +278,14 @@ def C04_full : Prop := ∀ rb : RB, FlushWFP (fun _ => True) rb → FlushSpec rb
 def charWideRB : RB := charAt (RB.new 1 4 0 0) 0 1 0xff21
 
 /-- A terminal with blank cells, cursor at the origin. -/
-def blankTerm : GridTerm := { cells := fun _ _ => {}, line := 0, col := 0 }
+def blankTerm : GridTerm := { cells := fun _ _ => {}, line := 0, col := 0, cols := 80 }
 
 /-- Counterexample (known finding): the double-width U+FF21 in a CHAR cell spills into column 2, a skipped cell. -/
 theorem C04_full_counterexample : ¬ C04_full := by
   intro h
   have hwf : FlushWFP (fun _ => True) charWideRB :=
     flushWFP_of_flushWFPb (okb := fun _ => true) (fun _ _ => trivial) (by decide +kernel)
-  have := (h charWideRB hwf blankTerm).2 0 2
+  have := (h charWideRB hwf blankTerm (by decide +kernel)).2 0 2
   revert this
   decide +kernel
 
@@ -289,7 +297,7 @@ theorem charWide_not_charOK : ¬ CharOK 0xff21 := by
 
 /-- `FlushSpec` of the flush as it was before the repair. -/
 def FlushSpecOld (rb : RB) : Prop :=
-  ∀ t : GridTerm,
+  ∀ t : GridTerm, rb.cols ≤ t.cols →
     (flushToTermOld rb).out = .ok ∧
     ∀ l c, cellOK (want rb l c) (t.cells l c) ((t.run (flushToTermOld rb).reqs).cells l c) = true
 
@@ -310,7 +318,7 @@ theorem flush_old_requests :
 theorem flush_old_wide_cut_counterexample : FlushWF cutRB ∧ ¬ FlushSpecOld cutRB := by
   refine ⟨flushWF_of_flushWFb (by decide +kernel), ?_⟩
   intro h
-  have := (h blankTerm).2 0 2
+  have := (h blankTerm (by decide +kernel)).2 0 2
   revert this
   decide +kernel
 
